@@ -5,7 +5,7 @@
 (*        subs |-> << [dense |-> 0/1, start, span |-> window in units of the decoder's memory     *)
 (*                     map (= granules), aw |-> subordinate word-address width, feat |-> ...] >>]  *)
 (*       Domain of C07: dense windows between buses of equal granularity, or sparse windows;     *)
-(*       every window spans at least one decoder word.                                           *)
+(*       (a sparse window may be narrower than one decoder word, see WSel).                      *)
 (* in  = [adr, cyc, stb, we, lock, cti, bte, sel |-> bits(g), dat_w |-> bytes,                    *)
 (*        subs |-> << [ack, err, rty, stall, dat_r |-> bytes] >>]   responses of each subordinate *)
 (* obs = [ack, err, rty, stall, dat_r |-> bytes,                                                 *)
@@ -15,10 +15,14 @@ EXTENDS Util
 WdInit(cfg) == [x |-> 0]
 WdStep(cfg, st, in) == st
 NS(cfg) == Len(cfg.subs)
-\* the window of subordinate k contains the (granule) address of word adr
-WOwns(cfg, k, adr) == LET a == adr * cfg.g IN
-                      cfg.subs[k].start <= a /\ a < cfg.subs[k].start + cfg.subs[k].span
-WSel(cfg, adr) == {k \in 1..NS(cfg) : WOwns(cfg, k, adr)}
+\* the window of subordinate k contains (part of) word adr.  Windows are at least one word wide and word-aligned,
+\* except sparse windows onto subordinates with fewer addresses than a word has granules: several of those can
+\* lie in ONE word, and then "at most one subordinate sees the cycle" still holds - the lowest one is selected
+WOwns(cfg, k, adr) == /\ cfg.subs[k].start < (adr + 1) * cfg.g
+                      /\ adr * cfg.g < cfg.subs[k].start + cfg.subs[k].span
+WSel(cfg, adr) == LET own == {k \in 1..NS(cfg) : WOwns(cfg, k, adr)} IN
+                  IF own = {} THEN {}
+                  ELSE {CHOOSE k \in own : \A j \in own : cfg.subs[k].start <= cfg.subs[j].start}
 \* environment assumption of C07: subordinates respond only while selected
 Behaved(cfg, in) == \A k \in 1..NS(cfg) :
    (k \notin WSel(cfg, in.adr) \/ in.cyc = 0) =>
